@@ -21,6 +21,10 @@ FAMILIES = [
     ("codec_plain", "style='codec', mixin=False"),
     ("config_json", "style='config', fmt='json'"), ("annotated_json", "style='annotated', fmt='json'"),
     ("annotated_msgpack", "style='annotated', fmt='msgpack'"), ("annotated_plain", "style='annotated', mixin=False"),
+    ("config_json_predef", "style='config', fmt='json', predef=True"),
+    ("annotated_json_predef", "style='annotated', fmt='json', predef=True"),
+    ("annotated_plain_predef", "style='annotated', mixin=False, predef=True"),
+    ("codec_predef", "style='codec', predef=True"), ("config_predef", "style='config', predef=True"),
 ]
 
 
